@@ -75,6 +75,19 @@ func VerifC03_Names() {
 		which, want = "route", a+"<-"+b
 		verifAssert(h.s == a && h.id == b, "every argument arrives in the parameter the caller passed it for")
 		verifReach("out-of-order-ids")
+	case 3: // a typedef of an enum as argument and return type
+		want := Shade(verifNondetI32())
+		sh, e := client.Shade(frugal.NewFContext("cid"), want)
+		verifAssert(h.calls == 1 && h.which == "shade" && h.n == int32(want), "equal argument")
+		if h.outcome == verifValue {
+			verifAssert(e == nil && sh == want^1, "the caller observes the returned enum value (declared or not)")
+		} else {
+			te, ok := e.(thrift.TApplicationException)
+			verifAssert(ok && te.TypeId() == frugal.APPLICATION_EXCEPTION_INTERNAL_ERROR, "undeclared failure -> INTERNAL_ERROR")
+		}
+		verifReach("typedef-enum-return")
+		verifReach("end")
+		return
 	}
 	verifAssert(h.calls == 1 && loop.requests == 1 && h.which == which, "exactly the called method's handler runs, once")
 	if h.outcome == verifValue {
@@ -221,6 +234,12 @@ func (h *verifHandler) Route(fctx frugal.FContext, to string, sender string) (st
 	h.calls++
 	h.which, h.s, h.id = "route", to, sender
 	return to + "<-" + sender, h.fail()
+}
+
+func (h *verifHandler) Shade(fctx frugal.FContext, want Shade) (Shade, error) {
+	h.calls++
+	h.which, h.n = "shade", int32(want)
+	return want ^ 1, h.fail() // stays inside the i32 range of the wire
 }
 
 func (h *verifHandler) Fire(fctx frugal.FContext, s string) error {
